@@ -1084,7 +1084,9 @@ def interleave_stage(ctx, pid, names, *, budget_s, all_pairs=False, max_k=40, pa
         done_pairs = set()
         nsc = 0
         rounds = 0
-        while kinds and time.time() < deadline:
+        hard = deadline + 2 * per
+        # every kind of pair gets at least two turns, even when the machine is slow (then up to three times the time share)
+        while kinds and (time.time() < deadline or (rounds < 2 * len(kinds) and time.time() < hard)):
             kd = kinds[rounds % len(kinds)]
             rounds += 1
             if rounds > 200000:
@@ -1124,7 +1126,7 @@ def interleave_stage(ctx, pid, names, *, budget_s, all_pairs=False, max_k=40, pa
                 base = impl.w.eng.save_state()
                 stats["states"] += 1
                 for la, da, lb, db in chosen:
-                    if time.time() > deadline:
+                    if time.time() > hard:
                         break
                     done_pairs.add((node, la, lb))
                     na, aa = ("Compact", []) if la == "Compact" else _args_of(la)
@@ -1148,7 +1150,7 @@ def interleave_stage(ctx, pid, names, *, budget_s, all_pairs=False, max_k=40, pa
                     allowed = [g.nodes[x] for x in (s12, s21)]
                     stats["pairs"] += 1
                     for k in range(1, max_k + 1):
-                        if time.time() > deadline:
+                        if time.time() > hard:
                             break
                         impl.w.eng.load_state(base)
                         nsc += 1
